@@ -95,6 +95,12 @@ func FromBytes(data []byte) (*Labels, error) {
 // length or missing bytes.
 var ErrBufferTooShort = errors.New("rfc1035label: buffer too short")
 
+// maxNameLength is the maximum length of a domain name (RFC 1035, Section 3.1).
+const maxNameLength = 255
+
+// ErrNameTooLong is returned when a decoded domain name exceeds 255 octets.
+var ErrNameTooLong = errors.New("rfc1035label: domain name exceeds 255 octets")
+
 // fromBytes decodes a serialized stream and returns a list of labels
 func labelsFromBytes(buf []byte) ([]string, error) {
 	var (
@@ -139,6 +145,12 @@ func labelsFromBytes(buf []byte) ([]string, error) {
 		} else {
 			if pos+length > len(buf) {
 				return nil, ErrBufferTooShort
+			}
+			// RFC 1035, Section 3.1: a domain name is limited to 255 octets.
+			// Without this limit compression pointers into a long run of
+			// labels make decoding quadratic in time and memory.
+			if len(label)+length+1 > maxNameLength {
+				return nil, ErrNameTooLong
 			}
 			chunk = string(buf[pos : pos+length])
 			if label != "" {
